@@ -8,8 +8,10 @@ import (
 	"math/rand"
 	"net/http"
 	"net/http/httptest"
+	"runtime"
 	"sort"
 	"strings"
+	"sync"
 
 	restful "github.com/emicklei/go-restful/v3"
 )
@@ -39,6 +41,7 @@ type corsPlan struct {
 	ReqsPer int       `json:"reqsPer"` // random requests per random configuration
 	Shuffle bool      `json:"shuffle"` // also run the pool in a seeded shuffled order
 	Stacked bool      `json:"stacked"` // run the pool on the two-filter container as well
+	Conc    int       `json:"conc"`    // > 0: concurrent requests (that many per goroutine) to two WebServices with CORS filters of their own
 }
 
 type corsCounters struct{ ran, later int }
@@ -281,6 +284,59 @@ func runCorsStacked(tw *traceWriter, cfg corsCfg, reqs []corsReq) {
 	}
 }
 
+// two WebServices with CORS filters of their own (different allowed origins) behind three container
+// filters, requests to both at the same time: a grant on a response needs an origin the filter of
+// THAT WebService allows
+func runCorsConc(tw *traceWriter, rounds int) {
+	c := restful.NewContainer()
+	for i := 0; i < 3; i++ {
+		c.Filter(func(req *restful.Request, resp *restful.Response, chain *restful.FilterChain) {
+			runtime.Gosched()
+			chain.ProcessFilter(req, resp)
+		})
+	}
+	allowed := map[string]string{"/ca": "http://a.example", "/cb": "http://b.example"}
+	for path, dom := range allowed {
+		f := restful.CrossOriginResourceSharing{AllowedDomains: []string{dom}, CookiesAllowed: true, Container: c}
+		ws := new(restful.WebService).Path(path)
+		ws.Filter(f.Filter)
+		ws.Route(ws.GET("").To(func(req *restful.Request, resp *restful.Response) { resp.Write([]byte("ok")) }))
+		c.Add(ws)
+	}
+	type obs struct {
+		path, origin string
+		grant        bool
+	}
+	const G = 8
+	res := make([][]obs, G)
+	var wg sync.WaitGroup
+	start := make(chan struct{})
+	for g := 0; g < G; g++ {
+		wg.Add(1)
+		go func(g int) {
+			defer wg.Done()
+			<-start
+			for k := 0; k < rounds; k++ {
+				path := []string{"/ca", "/cb"}[(g+k)%2]
+				origin := []string{"http://a.example", "http://b.example"}[(g/2+k/2)%2]
+				hr, _ := buildRequest("GET", path, [][2]string{{"Origin", origin}}, nil, false)
+				rec := httptest.NewRecorder()
+				safely(func() { c.Dispatch(rec, hr) })
+				h := wireHeader(rec)
+				res[g] = append(res[g], obs{path, origin, h.Get("Access-Control-Allow-Origin") != "" || h.Get("Access-Control-Allow-Credentials") != ""})
+			}
+		}(g)
+	}
+	close(start)
+	wg.Wait()
+	tw.emit(map[string]interface{}{"e": "cfg", "cfg": corsCfg{Domains: []string{}, Methods: []string{}, Headers: []string{}, Expose: []string{}, Pred: "none"}})
+	for g := 0; g < G; g++ {
+		for _, o := range res[g] {
+			tw.emit(map[string]interface{}{"e": "cstack", "origin": o.origin, "second": []string{allowed[o.path]}, "cred": o.grant, "xb": false, "panic": false, "conc": true})
+		}
+	}
+}
+
 func mutateOrigin(r *rand.Rand, base string) string {
 	switch r.Intn(13) {
 	case 0:
@@ -338,6 +394,9 @@ func runCors(planPath, outPath string, seed int64) {
 	restful.EnableTracing(false)
 	tw := newTraceWriter(outPath)
 	defer tw.close()
+	if p.Conc > 0 {
+		runCorsConc(tw, p.Conc)
+	}
 	for _, cfg := range p.Cfgs {
 		if p.Stacked {
 			tw.emit(map[string]interface{}{"e": "cfg", "cfg": cfg})
